@@ -454,3 +454,213 @@ Theorem pparse_erase : forall ids (ts : list (atk A)), erase (pparse A cfg ids t
 Proof. intros ids ts. unfold pparse, parse. apply pparse_fuel_erase. Qed.
 
 End Erase.
+
+(* ================================================================================================ naturality
+   the parser never looks at the annotation: re-annotating the tokens re-annotates the error, nothing else *)
+Section Natural.
+Variables A B : Type.
+Variable g : A -> B.
+Variable cfg : pcfg.
+
+Definition amap (ts : list (atk A)) : list (atk B) := map (fun p => (fst p, g (snd p))) ts.
+
+Definition qmap3 {R : Type} (r : qres A (R * list str * list (atk A))) : qres B (R * list str * list (atk B)) :=
+  match r with
+  | QOk (x, u, ts) => QOk (x, u, amap ts)
+  | QErr a => QErr (option_map g a) | QPanic => QPanic | QOOF => QOOF
+  end.
+Definition qmap2 (r : qres A (list str * list (atk A))) : qres B (list str * list (atk B)) :=
+  match r with
+  | QOk (x, ts) => QOk (x, amap ts)
+  | QErr a => QErr (option_map g a) | QPanic => QPanic | QOOF => QOOF
+  end.
+Definition qmap {R : Type} (r : qres A R) : qres B R :=
+  match r with QOk x => QOk x | QErr a => QErr (option_map g a) | QPanic => QPanic | QOOF => QOOF end.
+
+Lemma toks_amap : forall ts, toks_of (amap ts) = toks_of ts.
+Proof. intros ts. unfold toks_of, amap. rewrite map_map. reflexivity. Qed.
+Lemma padv_amap : forall ts, padv (amap ts) = amap (padv ts).
+Proof. intros [|t ts]; reflexivity. Qed.
+Lemma ann_amap : forall ts, ann (amap ts) = option_map g (ann ts).
+Proof. intros [|[t a] ts]; reflexivity. Qed.
+Lemma length_amap : forall ts, length (amap ts) = length ts.
+Proof. intros ts. apply map_length. Qed.
+
+Ltac not_mapped x :=
+  lazymatch x with
+  | qmap3 _ => fail
+  | qmap2 _ => fail
+  | _ => idtac
+  end.
+
+Lemma identlist_natural : forall f names ts,
+  pparse_identlist B f names (amap ts) = qmap2 (pparse_identlist A f names ts).
+Proof.
+  induction f as [|f IH]; intros names ts; [reflexivity|].
+  cbn [pparse_identlist]. unfold ppeek. rewrite !padv_amap, !toks_amap, !ann_amap, IH.
+  repeat first [ reflexivity
+               | match goal with
+                 | |- context [match ?x with _ => _ end] => no_inner x; not_mapped x; destruct x eqn:?
+                 | |- context [if ?x then _ else _] => no_inner x; destruct x eqn:?
+                 end ].
+Qed.
+
+Record nat_at (f : nat) : Prop := {
+  na_let : forall ids ts, pparse_let B cfg f ids (amap ts) = qmap3 (pparse_let A cfg f ids ts);
+  na_expr : forall ids ts, pparse_expression B cfg f ids (amap ts) = qmap3 (pparse_expression A cfg f ids ts);
+  na_op : forall k ids ts, pparse_op B cfg f k ids (amap ts) = qmap3 (pparse_op A cfg f k ids ts);
+  na_loop : forall k o a u ids ts, pparse_op_loop B cfg f k o a u ids (amap ts) = qmap3 (pparse_op_loop A cfg f k o a u ids ts);
+  na_unary : forall ids ts, pparse_unary B cfg f ids (amap ts) = qmap3 (pparse_unary A cfg f ids ts);
+  na_nonop : forall ids ts, pparse_nonop B cfg f ids (amap ts) = qmap3 (pparse_nonop A cfg f ids ts);
+  na_postfix : forall e u ids ts, pparse_postfix B cfg f e u ids (amap ts) = qmap3 (pparse_postfix A cfg f e u ids ts);
+  na_literal : forall ids ts, pparse_literal B cfg f ids (amap ts) = qmap3 (pparse_literal A cfg f ids ts);
+  na_switch : forall sv cs u ids ts, pparse_switch B cfg f sv cs u ids (amap ts) = qmap3 (pparse_switch A cfg f sv cs u ids ts);
+  na_args : forall c ids ts, pparse_args B cfg f c ids (amap ts) = qmap3 (pparse_args A cfg f c ids ts);
+  na_args_loop : forall c acc u ids ts, pparse_args_loop B cfg f c acc u ids (amap ts) = qmap3 (pparse_args_loop A cfg f c acc u ids ts);
+  na_map : forall m u ids ts, pparse_map B cfg f m u ids (amap ts) = qmap3 (pparse_map A cfg f m u ids ts)
+}.
+
+Ltac na_rw IH :=
+  rewrite ?padv_amap, ?toks_amap, ?ann_amap, ?length_amap;
+  rewrite ?(na_let _ IH), ?(na_expr _ IH), ?(na_op _ IH), ?(na_loop _ IH), ?(na_unary _ IH), ?(na_nonop _ IH),
+          ?(na_postfix _ IH), ?(na_literal _ IH), ?(na_switch _ IH), ?(na_args _ IH), ?(na_args_loop _ IH), ?(na_map _ IH),
+          ?identlist_natural.
+
+Ltac na_walk IH :=
+  cbv zeta; unfold ppeek, ppeek2;
+  repeat (na_rw IH; cbn [qmap3 qmap2];
+          first [ reflexivity
+                | match goal with
+                  | |- context [match ?x with _ => _ end] => no_inner x; not_mapped x; destruct x eqn:?
+                  | |- context [if ?x then _ else _] => no_inner x; destruct x eqn:?
+                  end ]).
+
+Lemma natural_step f : nat_at f -> nat_at (S f).
+Proof.
+  intros IH. constructor.
+  - intros ids ts. rewrite !pparse_let_S. na_walk IH.
+  - intros ids ts. rewrite !pparse_expression_S. na_walk IH.
+  - intros k ids ts. rewrite !pparse_op_S. na_walk IH.
+  - intros k o a u ids ts. rewrite !pparse_op_loop_S. na_walk IH.
+  - intros ids ts. rewrite !pparse_unary_S. na_walk IH.
+  - intros ids ts. rewrite !pparse_nonop_S. na_walk IH.
+  - intros e u ids ts. rewrite !pparse_postfix_S. na_walk IH.
+  - intros ids ts. rewrite !pparse_literal_S. na_walk IH.
+  - intros sv cs u ids ts. rewrite !pparse_switch_S. na_walk IH.
+  - intros c ids ts. rewrite !pparse_args_S. na_walk IH.
+  - intros c acc u ids ts. rewrite !pparse_args_loop_S. na_walk IH.
+  - intros m u ids ts. rewrite !pparse_map_S. na_walk IH.
+Qed.
+
+Lemma natural_all : forall f, nat_at f.
+Proof. induction f as [|f IH]; [constructor; intros; reflexivity|]. apply natural_step. exact IH. Qed.
+
+Theorem pparse_fuel_natural : forall f ids ts,
+  pparse_fuel B cfg f ids (amap ts) = qmap (pparse_fuel A cfg f ids ts).
+Proof.
+  intros f ids ts. unfold pparse_fuel. rewrite (na_let f (natural_all f)).
+  destruct (pparse_let A cfg f ids ts) as [[[a u] rest]|a| |]; cbn [qmap3 qmap]; try reflexivity.
+  unfold ppeek. rewrite toks_amap, ann_amap. destruct (typ_is (peek (toks_of rest)) tEof); reflexivity.
+Qed.
+
+Theorem pparse_natural : forall ids ts, pparse B cfg ids (amap ts) = qmap (pparse A cfg ids ts).
+Proof. intros ids ts. unfold pparse. rewrite toks_amap. apply pparse_fuel_natural. Qed.
+
+End Natural.
+
+(* ================================================================================================ consequences *)
+
+(* forgetting the line: the parser model of C03 / C04 (every theorem over Syn/Parse.v transfers) *)
+Lemma toks_with_line : forall ts : list token, toks_of (map with_line ts) = map untok ts.
+Proof. intros ts. unfold toks_of. rewrite map_map. reflexivity. Qed.
+
+Theorem parse_pos_erase : forall cfg ids (ts : list token),
+  erase (parse_pos cfg ids ts) = parse_tokens cfg ids ts.
+Proof. intros cfg ids ts. unfold parse_pos, parse_tokens. rewrite pparse_erase, toks_with_line. reflexivity. Qed.
+
+(* the numbered tokens, re-annotated *)
+Lemma amap_number_from : forall (B : Type) (g : nat -> B) (h : token -> B) (l : list token) k,
+  (forall j t, nth_error l j = Some t -> g (k + j) = h t) ->
+  amap nat B g (number_from k (map untok l)) = map (fun t => (untok t, h t)) l.
+Proof.
+  intros B g h. induction l as [|x l IH]; intros k H; [reflexivity|].
+  cbn [map number_from amap fst snd]. f_equal.
+  - f_equal. rewrite <- (H 0 x eq_refl). f_equal. lia.
+  - apply IH. intros j t Hj. rewrite <- (H (S j) t Hj). f_equal. lia.
+Qed.
+
+Lemma amap_number_id : forall (h : nat -> nat) (l : list tk) k,
+  (forall j, j < length l -> h (k + j) = k + j) -> amap nat nat h (number_from k l) = number_from k l.
+Proof.
+  intros h. induction l as [|x l IH]; intros k H; [reflexivity|].
+  cbn [number_from amap map fst snd]. f_equal.
+  - f_equal. specialize (H 0 ltac:(cbn; lia)). rewrite Nat.add_0_r in H. exact H.
+  - apply IH. intros j Hj. specialize (H (S j) ltac:(cbn; lia)). rewrite <- plus_n_Sm in H. exact H.
+Qed.
+
+Definition tok_default : token := mkTok tEof [] 0%N.
+Definition line_at (ts : list token) (i : nat) : N := tline (nth i ts tok_default).
+
+(* THE tie between the two instances: the line reported is the line of the token whose position the position
+   instance reports (and the AST / the outcome kind are those of the position instance) *)
+Theorem parse_pos_via_idx : forall cfg ids (ts : list token),
+  parse_pos cfg ids ts = qmap nat N (line_at ts) (parse_idx cfg ids (map untok ts)).
+Proof.
+  intros cfg ids ts. unfold parse_pos, parse_idx. rewrite <- pparse_natural. f_equal.
+  symmetry. apply (amap_number_from N (line_at ts) tline ts 0).
+  intros j t Hj. unfold line_at. cbn [Nat.add]. rewrite (nth_error_nth _ _ _ Hj). reflexivity.
+Qed.
+
+(* the position reported is a position of the stream (a free theorem: an out-of-range position could be renamed) *)
+Theorem parse_idx_in_range : forall cfg ids (tks : list tk) i,
+  parse_idx cfg ids tks = QErr (Some i) -> i < length tks.
+Proof.
+  intros cfg ids tks i H. unfold parse_idx in H.
+  destruct (Nat.ltb i (length tks)) eqn:E; [apply Nat.ltb_lt; exact E|exfalso].
+  assert (Hh : forall v, qmap nat nat (fun j => if Nat.ltb j (length tks) then j else v)
+                          (pparse nat cfg ids (number_from 0 tks)) = pparse nat cfg ids (number_from 0 tks)).
+  { intros v. rewrite <- pparse_natural. f_equal. apply amap_number_id.
+    intros j Hj. cbn [Nat.add]. apply Nat.ltb_lt in Hj. rewrite Hj. reflexivity. }
+  pose proof (Hh 0) as H0. pose proof (Hh 1) as H1. rewrite H in H0, H1. cbn [qmap option_map] in H0, H1.
+  rewrite E in H0, H1. congruence.
+Qed.
+
+Theorem error_line_is_token_line_lemma : forall cfg ids (ts : list token) L,
+  parse_pos cfg ids ts = QErr (Some L) ->
+  exists i t, parse_idx cfg ids (map untok ts) = QErr (Some i) /\ nth_error ts i = Some t /\ tline t = L.
+Proof.
+  intros cfg ids ts L H. rewrite parse_pos_via_idx in H.
+  destruct (parse_idx cfg ids (map untok ts)) as [a|[i|]| |] eqn:E; cbn [qmap option_map] in H; try discriminate.
+  pose proof (parse_idx_in_range _ _ _ _ E) as Hi. rewrite map_length in Hi.
+  destruct (nth_error ts i) as [t|] eqn:Ht; [|apply nth_error_None in Ht; lia].
+  exists i, t. split; [reflexivity|]. split; [exact Ht|].
+  injection H as H. unfold line_at in H. rewrite (nth_error_nth _ _ _ Ht) in H. exact H.
+Qed.
+
+(* ... and conversely: the position instance decides everything *)
+Theorem error_at_token_reports_its_line : forall cfg ids (ts : list token) i,
+  parse_idx cfg ids (map untok ts) = QErr (Some i) ->
+  exists t, nth_error ts i = Some t /\ parse_pos cfg ids ts = QErr (Some (tline t)).
+Proof.
+  intros cfg ids ts i E. pose proof (parse_idx_in_range _ _ _ _ E) as Hi. rewrite map_length in Hi.
+  destruct (nth_error ts i) as [t|] eqn:Ht; [|apply nth_error_None in Ht; lia].
+  exists t. split; [reflexivity|]. rewrite parse_pos_via_idx, E. cbn [qmap option_map].
+  unfold line_at. rewrite (nth_error_nth _ _ _ Ht). reflexivity.
+Qed.
+
+(* an error built from the pseudo token TokenEof (the input ended too early) carries no line, whatever the lines are *)
+Theorem error_at_eof_has_no_line : forall cfg ids (ts : list token),
+  parse_pos cfg ids ts = QErr None <-> parse_idx cfg ids (map untok ts) = QErr None.
+Proof.
+  intros cfg ids ts. rewrite parse_pos_via_idx.
+  destruct (parse_idx cfg ids (map untok ts)) as [a|[i|]| |]; cbn [qmap option_map]; split; intros H;
+    try discriminate; reflexivity.
+Qed.
+
+(* the outcome kind and the AST do not depend on the lines *)
+Theorem parse_pos_ok_iff : forall cfg ids (ts : list token) a,
+  parse_pos cfg ids ts = QOk a <-> parse_tokens cfg ids ts = POk a.
+Proof.
+  intros cfg ids ts a. rewrite <- parse_pos_erase.
+  destruct (parse_pos cfg ids ts) as [x|l| |]; cbn [erase]; split; intros H; try discriminate; congruence.
+Qed.
